@@ -168,6 +168,14 @@ def run_case(rs, ctx):
             if o.get("X") is not None:
                 o["X"] = [[v + offset for v in row] for row in o["X"]]
         ctx.count("offset_context_histories")
+    if not is_tree and labels == "str" and len(sh.arms) >= 3 and rs.integers(3) == 0:
+        # the arm with the longest label is retired, a later batch (a pandas Series of strings) still carries a few of its rows
+        victim = max(sh.arms, key=len)
+        sh.arms.remove(victim)
+        sh.removed.append(victim)
+        late = gen.gen_ops(rs, cfg, sh, 1, ["partial_fit"], train_rows=(4, 10))
+        ops += [{"op": "remove_arm", "arm": victim}] + late
+        ctx.count("retired_longest_label_scenarios")
     if not is_tree:
         # late log rows: after remove_arm, later batches may still name the removed arm (decisions are not validated against
         # the arm list; such rows belong to no arm); decisions often arrive as a pandas Series (labels of different lengths)
